@@ -58,3 +58,15 @@ Theorem C15_lowered_lifetimes_in_range : forall g m k,
   s_n g <= k /\ Forall (below k) (flat_map ty_lts (m_params m ++ m_ret m)).
 Proof. exact lowered_lifetimes_in_range. Qed.
 Print Assumptions C15_lowered_lifetimes_in_range.
+
+(* demo_gen's search for constructor calls (Dispatch/Ctor.v) always ends, whatever the constructors of the opaque types need
+   (number of types + 1 levels suffice); before its repair (c6b6c41) it did not end for a constructor that needs its own type *)
+From DV Require Import Dispatch.Ctor.
+Theorem C15_demo_constructor_search_terminates : forall e n t,
+  ctab_ok e n -> t < n -> construct e (S n) [] t <> None.
+Proof. exact construct_terminates. Qed.
+Print Assumptions C15_demo_constructor_search_terminates.
+
+Theorem C15_demo_constructor_search_unrepaired_diverges : forall fuel, construct_unrepaired [Some [0]] fuel 0 = None.
+Proof. exact unrepaired_diverges. Qed.
+Print Assumptions C15_demo_constructor_search_unrepaired_diverges.
